@@ -55,6 +55,7 @@ extern "C" void harness_main()
   Memory *memory = new Memory();
   SIMCLASS *s[2];
   for (int k = 0; k < 2; k++) s[k] = (SIMCLASS *)SIMCLASS::init(memory);
+  init_n = 0; first_read_done = 0; logs[0].n = 0; logs[1].n = 0;   // forget what the constructors' reset() read or wrote
   // symbolic state: every byte of the derived class's own data members
   const size_t base = sizeof(Simulate), total = sizeof(SIMCLASS);
 #ifdef HAVOC_CUSTOM
@@ -66,6 +67,9 @@ extern "C" void harness_main()
 #endif
   uint32_t bio = symx_u32("break_io");
   s[0]->break_io = bio; s[1]->break_io = bio;
+#ifndef SHOW
+  s[0]->show = false; s[1]->show = false;     // display off: the display reads ahead in memory and disassembles 12 instructions
+#endif
   int r[2];
   for (cur = 0; cur < 2; cur++)
   {
